@@ -111,6 +111,7 @@ func run(args []string) {
 			overlay[filepath.Join(pkgDir, filepath.Base(f))] = data
 		}
 	}
+	harnessPkgName := packageNameOf(overlay)
 	// extra overlay files for other packages: <harness>/extra/*.go with a first line
 	// "//verif:dir <dir relative to repo>"
 	if *harness != "" {
@@ -133,7 +134,7 @@ func run(args []string) {
 		if err != nil {
 			fatal(err)
 		}
-		pkgName := packageNameOf(overlay)
+		pkgName := harnessPkgName
 		if pkgName == "" {
 			fatal(fmt.Errorf("cannot determine package name from harness files"))
 		}
